@@ -33,7 +33,7 @@ import subprocess
 import tempfile
 
 from harness import gen_grammar as G
-from harness.core import PY, REPO, VERIF, Check
+from harness.core import PY, REPO, VERIF, Check, InfraError
 from harness.c16_world import import_order, op_key
 
 # ----------------------------------------------------------------------------
@@ -389,7 +389,7 @@ def _server():
         return p
     env = dict(os.environ, VERIF_REPO=REPO, PYTHONHASHSEED="0", PYTHONDONTWRITEBYTECODE="1")
     p = subprocess.Popen([PY, "-m", "harness.c16_world"], cwd=VERIF, env=env, stdin=subprocess.PIPE,
-                         stdout=subprocess.PIPE, stderr=subprocess.DEVNULL, text=True)
+                         stdout=subprocess.PIPE, stderr=subprocess.DEVNULL)
     _SERVER.clear()
     _SERVER[os.getpid()] = p
     atexit.register(_kill, p)
@@ -407,7 +407,34 @@ def _kill(p):
         pass
 
 
+SERVER_LIMIT = 150  # seconds of wall clock for one case (0.5 s on an idle machine)
+
+
+def _read_line(p, limit):
+    """one answer line of the server, or None when it does not arrive in time / the server died."""
+    import select
+    import time
+
+    fd = p.stdout.fileno()
+    buf = b""
+    end = time.time() + limit
+    while not buf.endswith(b"\n"):
+        left = end - time.time()
+        if left <= 0:
+            return None
+        r, _, _ = select.select([fd], [], [], min(left, 5))
+        if not r:
+            continue
+        chunk = os.read(fd, 1 << 16)
+        if not chunk:
+            return None
+        buf += chunk
+    return buf
+
+
 def run_world(case, lean=True):
+    """Observation of one case, or {"inconclusive": why} when the machinery (not the code under test)
+    did not deliver: an overloaded machine must never turn into a verdict about the property."""
     tmp = tempfile.mkdtemp(prefix="c16_")
     try:
         for fn, text in case.get("files", {}).items():
@@ -415,18 +442,21 @@ def run_world(case, lean=True):
                 f.write(text)
         p = _server()
         try:
-            p.stdin.write(json.dumps({"case": case, "tmp": tmp, "lean": lean}) + "\n")
+            p.stdin.write((json.dumps({"case": case, "tmp": tmp, "lean": lean}) + "\n").encode())
             p.stdin.flush()
-            line = p.stdout.readline()
+            line = _read_line(p, SERVER_LIMIT)
         except BaseException:
             _kill(p)
             _SERVER.clear()
             raise
-        if not line:
+        if line is None:
             _kill(p)
             _SERVER.clear()
-            return {"crash": "the fork server died"}
-        return json.loads(line)
+            return {"inconclusive": f"no answer from the fork server within {SERVER_LIMIT}s"}
+        res = json.loads(line.decode())
+        if "crash" in res and "runs" not in res:
+            return {"inconclusive": "fork server: " + str(res.get("crash"))[:300]}
+        return res
     finally:
         shutil.rmtree(tmp, ignore_errors=True)
 
@@ -474,7 +504,8 @@ class Prop(Check):
     DRIVER = "Drivers/History.lean"
     QUICK_CASES = 72
     THOROUGH_CASES = 900
-    CASE_TIMEOUT = 120
+    CASE_TIMEOUT = 400
+    MAX_INCONCLUSIVE = 0.1  # more than this fraction of unfinished cases: infrastructure trouble (exit 2)
     RULE = ("pools of 2-4 metamodels (+0-2 created inside the history) x 5 histories of 3-12 loads (strings / files, valid / "
             "syntax error / unknown reference / failing user __init__, object processor, model processor / missing import); "
             "non-trivial = a history in which a successful load follows a failed load of the same metamodel or a load of "
@@ -536,7 +567,9 @@ class Prop(Check):
             ph = phase_of(st["out"])
             fin = {"ok": "ok", "parse": "ok", "skip": "ok", "init": "init", "objproc": "objproc",
                    "modelproc": "modelproc"}.get(ph, "resolve")
-            lops.append({"load": op[1], "files": files, "buildFail": False, "fin": fin, "j": 0})
+            # a failing user __init__: the machine reports the counts up to model j; which model it was is not
+            # observable from outside, so ask for all of them and compare a prefix
+            lops.append({"load": op[1], "files": files, "buildFail": False, "fin": fin, "j": max(0, len(files) - 1)})
         return lops
 
     def model_req(self, case, obs):
@@ -656,14 +689,23 @@ class Prop(Check):
             return f"the parser clone shares {c['alias']} with the blueprint (is blueprint: {c['is_bp']}); the model's clone shares nothing"
         return None
 
+    def _note_inconclusive(self, why):
+        self._inconclusive = getattr(self, "_inconclusive", 0) + 1
+        if self._inconclusive > max(3, self.MAX_INCONCLUSIVE * max(getattr(self, "_seen", 0), self.QUICK_CASES)):
+            raise InfraError(f"{self._inconclusive} cases / histories did not finish (last: {why}); "
+                             "machine overloaded? no verdict")
+
     # ---- direct oracle -----------------------------------------------------------------
     def oracle(self, case, obs):
-        if "crash" in obs:
-            return "harness: " + str(obs["crash"])[:300]
+        self._seen = getattr(self, "_seen", 0) + 1
+        if "inconclusive" in obs:
+            self._note_inconclusive(obs["inconclusive"])
+            return None
         npool = len(case["pool"])
         for h, (ops, run) in enumerate(zip(case["histories"], obs["runs"])):
             if "crash" in run:
-                return f"history {h}: harness crash {str(run['crash'])[:200]}"
+                self._note_inconclusive("history process: " + str(run["crash"])[:200])
+                continue  # the forked history process died (memory / signal): nothing to compare
             for i, (op, st) in enumerate(zip(ops, run["hist"])):
                 out = st["out"]
                 if op[0] == "new":
@@ -771,7 +813,7 @@ class Prop(Check):
                         after_fail += 1
                     if p not in ("ok", "skip"):
                         failed.add(op[1])
-        return {"histories": hist, "operations": ops, "outcome_phases": dict(ph), "metamodel_kinds": dict(kinds),
+        return {"inconclusive": getattr(self, "_inconclusive", 0), "histories": hist, "operations": ops, "outcome_phases": dict(ph), "metamodel_kinds": dict(kinds),
                 "compared_with_pool_state_reference": compared_r1, "compared_with_solo_reference": compared_r2,
                 "histories_replayed_by_lean": lean_h, "loads_with_memo_cache_stores": memo_loads,
                 "file_loads": multi, "successful_loads_after_a_failed_load_of_the_same_metamodel": after_fail}
